@@ -237,7 +237,15 @@ pub fn encode_apng_with(rng: &mut Rng, img: &HImg, extra_frames: usize, default_
         seq += 1;
     }
     let filtered = img.filtered(|_| 0);
+    // zero-length IDAT chunks are legal anywhere in the run (a leading one makes `from_slice` note the position twice)
+    let empties = if rng.chance(1, 4) { rng.range(1, 3) } else { 0 };
+    if empties & 1 != 0 {
+        write_chunk(&mut out, b"IDAT", &[]);
+    }
     write_chunk(&mut out, b"IDAT", &miniz_oxide::deflate::compress_to_vec_zlib(&filtered, 6));
+    if empties & 2 != 0 {
+        write_chunk(&mut out, b"IDAT", &[]);
+    }
     for _ in 0..extra_frames {
         // a sub-rectangle frame with fresh content
         let fw = rng.range(1, img.w as u64) as u32;
